@@ -496,6 +496,69 @@ func c39RangeElem(ap *ssa.Function, v ssa.Value, at *ssa.Store) (bool, string) {
 	return true, "the appended item is the element of a forward range loop over the response's list"
 }
 
+// c39RangeIndex: idx is the counter of a forward step-one loop (range form:
+// phi(-1, phi+1) used as phi+1, or a plain phi(0, phi+1)) bounded by
+// len(list).
+func c39RangeIndex(idx ssa.Value, list ssa.Value) (bool, string) {
+	var phi *ssa.Phi
+	switch ix := idx.(type) {
+	case *ssa.Phi:
+		phi = ix
+	case *ssa.BinOp:
+		if p, isP := ix.X.(*ssa.Phi); isP && ix.Op == token.ADD {
+			if k, isK := engine.ConstInt(ix.Y); isK && k == 1 {
+				phi = p
+			}
+		}
+	}
+	if phi == nil {
+		return false, "the index is not a loop counter"
+	}
+	starts, steps := 0, 0
+	for _, e := range phi.Edges {
+		if k, isK := engine.ConstInt(e); isK {
+			if k != 0 && k != -1 {
+				return false, "the loop does not start at the first element"
+			}
+			starts++
+			continue
+		}
+		b, isB := e.(*ssa.BinOp)
+		if !isB || b.Op != token.ADD || b.X != ssa.Value(phi) {
+			return false, "the loop counter is not advanced by one"
+		}
+		if k, isK := engine.ConstInt(b.Y); !isK || k != 1 {
+			return false, "the loop counter is not advanced by one"
+		}
+		steps++
+	}
+	if starts != 1 || steps == 0 {
+		return false, "not a plain forward loop"
+	}
+	// bounded by len(list)
+	for _, b := range phi.Parent().Blocks {
+		iff, ok := b.Instrs[len(b.Instrs)-1].(*ssa.If)
+		if !ok {
+			continue
+		}
+		cmp, isC := iff.Cond.(*ssa.BinOp)
+		if !isC || cmp.Op != token.LSS {
+			continue
+		}
+		lc := engine.CallOf(cmp.Y)
+		if lc == nil || engine.CalleeID(lc.Common()) != "builtin.len" || engine.Unwrap(lc.Common().Args[0]) != engine.Unwrap(list) {
+			continue
+		}
+		if cmp.X == ssa.Value(phi) {
+			return true, ""
+		}
+		if add, isAdd := cmp.X.(*ssa.BinOp); isAdd && add.X == ssa.Value(phi) {
+			return true, ""
+		}
+	}
+	return false, "the loop is not bounded by the length of the whole list"
+}
+
 // c39DescByID: less(a, b) is a.GetID() > b.GetID().
 func c39DescByID(less *ssa.Function) bool {
 	if len(less.Params) != 2 {
